@@ -251,6 +251,11 @@ class Pipeline(object):
     @asyncio.coroutine
     def _run_producer_wrapper(self):
         '''Run the producer, if exception, stop engine.'''
+        if self._state != PipelineState.running:
+            # stop() was called before this task got to run; the producer
+            # would not know and carry on with no worker left.
+            return
+
         try:
             yield from self._producer.process()
         except Exception as error:
